@@ -5,6 +5,17 @@ listed for it, restores the tree (git checkout), and prints / appends the outcom
 A mutant must compile and pass the repository's own 144 tests to count (that is checked too)."""
 import subprocess, sys, time, re
 
+def _save_evidence():
+    import shutil, os
+    shutil.rmtree("/verif/target/tmp/evidence.bak", ignore_errors=True); os.makedirs("/verif/target/tmp", exist_ok=True)
+    shutil.copytree("/verif/evidence", "/verif/target/tmp/evidence.bak")
+def _restore_evidence():
+    # runs against a patched /repo must not leave their evidence behind: evidence files describe the unchanged tree only
+    import shutil, os
+    if os.path.isdir("/verif/target/tmp/evidence.bak"):
+        shutil.rmtree("/verif/evidence", ignore_errors=True); shutil.copytree("/verif/target/tmp/evidence.bak", "/verif/evidence")
+import atexit; _save_evidence(); atexit.register(_restore_evidence)
+
 M = [
  # name, file, old, new, checks that must alarm
  ("c01-unsorted-cardinals", "src/lib.rs", "        v.sort();\n", "", ["C01"]),
